@@ -396,7 +396,11 @@ func check14(c *Case, o *Obs, rec Rec) (vs []viol, inconclusive string) {
 				vc = kc
 			}
 			vals, ok := view[kv.K]
-			if !ok && c.Target == "proxy" {
+			// Proxied back-end: the proxy relays the back-end's trailer metadata of
+			// streaming methods (client-, server-, bidi-streaming) that end OK -
+			// pinned from the unchanged tree; nothing else is obliged there.
+			relayed := obsName == "trailer" && sc.Code == 0 && c.Method != "Echo"
+			if !ok && c.Target == "proxy" && !relayed {
 				// response metadata of a proxied back-end: the statement does not
 				// oblige the proxy to relay it; only what is relayed is compared
 				continue
@@ -617,6 +621,9 @@ func genOutSet(rng *rand.Rand, n int, used map[string]bool) []KV {
 	}
 	return out
 }
+
+// singleReply: methods that answer with exactly one message (unary, client-streaming).
+func singleReply(method string) bool { return method == "Echo" || method == "CS" }
 
 // gzipCapable: protocols with per-message grpc-encoding.
 func gzipCapable(proto string) bool { return strings.HasPrefix(proto, "grpc") }
@@ -870,7 +877,7 @@ func RunC14(r *mon.Run) {
 	for _, p := range []string{"http", "http-sock", "grpcweb", "grpcweb-text", "grpcweb-sock", "grpcweb-text-sock"} {
 		ovs = append(ovs, outVar{p, "Echo"}, outVar{p, "SS"})
 	}
-	ovs = append(ovs, outVar{"grpc", "Echo"}, outVar{"grpc", "SS"}, outVar{"grpc", "Bidi"})
+	ovs = append(ovs, outVar{"grpc", "Echo"}, outVar{"grpc", "SS"}, outVar{"grpc", "Bidi"}, outVar{"grpc", "CS"})
 	// Twirp: the implicit /pkg.Service/Method binding with a Twirp-Version header (unary only)
 	ovs = append(ovs, outVar{"twirp", "Echo"}, outVar{"twirp-sock", "Echo"})
 	outcomes := []struct {
@@ -899,7 +906,7 @@ func RunC14(r *mon.Run) {
 				}
 				c := &Case{Kind: "C14out", Proto: v.proto, Codec: codec, Method: v.method, Class: "custom", Target: target,
 					Script: Script{Code: oc.code, Msg: "metadata case", Replies: oc.replies}}
-				if v.method == "Echo" {
+				if singleReply(v.method) {
 					c.Script.Replies = 0
 					if oc.code == 0 {
 						c.Script.Replies = 1
@@ -911,7 +918,7 @@ func RunC14(r *mon.Run) {
 			// random custom sets
 			for i := 0; i < nRandOut; i++ {
 				oc := outcomes[rng.Intn(len(outcomes))]
-				if v.method == "Echo" && oc.replies > 0 && oc.code != 0 {
+				if singleReply(v.method) && oc.replies > 0 && oc.code != 0 {
 					oc.replies = 0
 				}
 				c := mk(oc)
@@ -936,7 +943,7 @@ func RunC14(r *mon.Run) {
 			// the handler keeps using the MD object it passed in
 			for _, mut := range mutations {
 				for _, oc := range outcomes {
-					if v.method == "Echo" && oc.replies > 0 && oc.code != 0 {
+					if singleReply(v.method) && oc.replies > 0 && oc.code != 0 {
 						continue
 					}
 					for _, send := range []bool{false, true} {
@@ -960,7 +967,7 @@ func RunC14(r *mon.Run) {
 				for i, n := 0, r.Pick(6, 40); i < n; i++ {
 					for _, gz := range []bool{true, false, false} {
 						oc := outcomes[(i+1)%len(outcomes)]
-						if v.method == "Echo" && oc.replies > 0 && oc.code != 0 {
+						if singleReply(v.method) && oc.replies > 0 && oc.code != 0 {
 							oc.replies = 0
 						}
 						c := mk(oc)
@@ -1013,7 +1020,7 @@ func RunC14(r *mon.Run) {
 			}
 			// a trailer key that is also a header key
 			for _, oc := range outcomes {
-				if v.method == "Echo" && oc.replies > 0 && oc.code != 0 {
+				if singleReply(v.method) && oc.replies > 0 && oc.code != 0 {
 					continue
 				}
 				c := mk(oc)
@@ -1031,7 +1038,7 @@ func RunC14(r *mon.Run) {
 				}
 				for _, where := range []string{"header", "trailer", "trailer-late"} {
 					for _, oc := range outcomes {
-						if v.method == "Echo" && (oc.replies > 0 && oc.code != 0 || where == "trailer-late") {
+						if singleReply(v.method) && (oc.replies > 0 && oc.code != 0 || where == "trailer-late") {
 							continue
 						}
 						if where == "trailer-late" && oc.replies == 0 {
@@ -1067,7 +1074,7 @@ func RunC14(r *mon.Run) {
 		}
 	}
 
-	r.Assume("proxied target (handler on a grpc.Server reached through RegisterConn): request header names are restricted to gRPC's key alphabet (the grpc-go hop refuses others); response metadata of the back-end carries no delivery obligation through the proxy - only relayed keys are compared (values at call time, byte-equal), plus status, replies, reserved keys and scratch keys")
+	r.Assume("proxied target (handler on a grpc.Server reached through RegisterConn): request header names are restricted to gRPC's key alphabet (the grpc-go hop refuses others); response metadata of the back-end carries no delivery obligation through the proxy except the trailer metadata of streaming methods (client-, server-, bidi-streaming) that end OK, which the proxy relays (pinned from the unchanged tree); otherwise only relayed keys are compared (values at call time, byte-equal), plus status, replies, reserved keys and scratch keys")
 	r.Assume("custom names avoid the names HTTP itself or gRPC reserve (host, te, content-*, accept*, grpc-*, ...) and are unique per request after lower-casing; ASCII values are printable without leading/trailing white space; a trailer set after the first reply is only required when the handler got that far")
 	r.Assume("header metadata set after the first reply carries no delivery obligation (grpc-go rejects it); trailers are not required on plain HTTP transcoding; a gRPC-web client reads trailers from the trailer frame, or from the HTTP headers of a body-less response")
 	r.Assume("reserved keys checked: content-type, grpc-status, grpc-message, grpc-encoding, grpc-status-details-bin (the keys a gRPC client interprets in a response)")
